@@ -3,7 +3,7 @@
 (* The life cycle of a model specification (C12):                          *)
 (*                                                                         *)
 (*   grids -> Model(...) -> get_lcm_function(...) -> first solve ->        *)
-(*   first simulate                                                        *)
+(*   first simulate -> simulate again from the solved arrays               *)
 (*                                                                         *)
 (* A specification is a valid base template plus a set of violated         *)
 (* documented rules:                                                       *)
@@ -20,7 +20,8 @@
 EXTENDS Naturals, Sequences, FiniteSets, TLC
 
 Rules == {"R1", "R2", "R3", "R4", "R5", "R6", "R7", "R8"}
-Stages == <<"grid", "model", "functions", "solve", "simulate">>
+\* "resimulate": the solved value arrays are handed to the simulate target, twice (the same list object)
+Stages == <<"grid", "model", "functions", "solve", "simulate", "resimulate">>
 EarlyStages == {"grid", "model", "functions"}
 AllowedErrors == {"GridInitializationError", "ModelInitilizationError", "ValueError"}
 
